@@ -26,10 +26,25 @@ inductive CType where
   | msg | opn | clo
 deriving Repr, DecidableEq
 
+/-- `MessageSecurityMode` as it arrives in an OpenSecureChannelRequest -/
+inductive Mode where
+  | invalid | none | sign | signAndEncrypt
+deriving Repr, DecidableEq
+
 /-- the request at the start of a pending message's body stream -/
 inductive ReqKind where
-  | getEndpoints | createSession | openIssue | openRenew | close | junk
+  | getEndpoints | createSession
+  -- an OpenSecureChannelRequest: request type, requested security mode, whether its
+  -- `client_protocol_version` equals the one of the Hello, and the length of its nonce (`none` = null)
+  | open (renew : Bool) (mode : Mode) (pvSame : Bool) (nonce : Option Nat)
+  -- an OpenSecureChannelRequest whose request type / security mode field holds no enum value
+  | openBadEnum
+  | close | junk
 deriving Repr, DecidableEq
+
+/-- the plain requests the earlier rounds used -/
+abbrev ReqKind.openIssue : ReqKind := .open false .none true none
+abbrev ReqKind.openRenew : ReqKind := .open true .none true none
 
 /-- malformation of one chunk -/
 inductive Mal where
@@ -98,6 +113,7 @@ def overhead (l : Lens) : CType → Nat
 inductive Out where
   | ack
   | opnResponse (chan token req : Nat)
+  | opnFault (code : String) (req : Nat)    -- OpenSecureChannel refused with a ServiceFault (connection goes on)
   | service (name : String) (req : Nat)     -- a response produced by the service layer
   | stored                                  -- chunk kept / pending cleared by an abort; nothing sent
   | closeErr (code : String)                -- Err(code): the reading loop ends
@@ -120,8 +136,8 @@ def processHello (c : Conn) : HelKind → Conn × Out
 def reqLen (l : Lens) : ReqKind → Nat
   | .getEndpoints => l.ge
   | .createSession => l.cs
-  | .openIssue => l.opn
-  | .openRenew => l.opn
+  | .open _ _ _ nonce => l.opn + (match nonce with | some n => n | none => 0)
+  | .openBadEnum => l.opn
   | .close => l.clo
   | .junk => 0
 
@@ -130,6 +146,7 @@ def reqLen (l : Lens) : ReqKind → Nat
 def decodeErr (l : Lens) (rk : ReqKind) (body : Nat) : Option String :=
   match rk with
   | .junk => if body < 2 then some "BadDecodingError" else some "BadUnexpectedError"
+  | .openBadEnum => if body < 4 then some "BadDecodingError" else some "BadServiceUnsupported"
   | rk =>
     if body < 4 then some "BadDecodingError"
     else if body < reqLen l rk then some "BadServiceUnsupported"
@@ -140,19 +157,20 @@ def dispatch (c : Conn) (finalTy firstTy : CType) (rk : ReqKind) (req : Nat) : C
   match finalTy with
   | .clo => closeWith c "BadConnectionClosed"
   | .opn =>
+    -- `SecureChannelService::open_secure_channel`, exit by exit
     match rk with
-    | .openIssue =>
-      if firstTy ≠ .opn then closeWith c "BadUnexpectedError"
+    | .open renew mode pvSame _ =>
+      if firstTy ≠ .opn then closeWith c "BadUnexpectedError"                 -- no asymmetric security header
+      else if ¬ pvSame then (c, .opnFault "BadProtocolVersionUnsupported" req)  -- nothing touched yet
+      else if renew ∧ ¬ c.issued then closeWith c "BadUnexpectedError"        -- renew before any issue
       else
-        let c2 := { c with issued := true, lastChanId := c.lastChanId + 1, chanId := c.lastChanId + 1,
-                           tokenId := c.tokenId + 1 }
-        (c2, .opnResponse c2.chanId c2.tokenId req)
-    | .openRenew =>
-      if firstTy ≠ .opn then closeWith c "BadUnexpectedError"
-      else if ¬ c.issued then closeWith c "BadUnexpectedError"
-      else
-        let c2 := { c with tokenId := c.tokenId + 1 }
-        (c2, .opnResponse c2.chanId c2.tokenId req)
+        -- Issue draws the next channel id here, before the security mode is looked at
+        let c1 := if renew then c else { c with lastChanId := c.lastChanId + 1 }
+        if mode = .invalid then (c1, .opnFault "BadSecurityModeRejected" req)   -- `issued` NOT set
+        else
+          let c2 := { c1 with issued := true, tokenId := c1.tokenId + 1,
+                              chanId := if renew then c1.chanId else c1.lastChanId }
+          (c2, .opnResponse c2.chanId c2.tokenId req)
     | _ => closeWith c "BadUnexpectedError"
   | .msg =>
     match rk with
